@@ -526,7 +526,7 @@ def sign_match_cases(rng, res, n, base=None):
                         open("out/app:v1.bin", "w").write("changed\n"); outcome = "differ"
                 elif variant == "match_missing_link":
                     argv[1] = os.path.join(d, "nope.link"); outcome = "load"
-                _av = argv
+                _av = argv + (["-v"] if rng.random() < 0.4 else [])      # (what is printed must not decide the status)
                 st, _o, _e = cli.run_main("in_toto_match_products", _av)
                 record(res, "match_products", {"variant": variant, "dsse": dsse}, st, outcome, argv=_av, file_kind=None)
         finally:
